@@ -231,6 +231,7 @@ class CommandManager(object):
         self.queue_lock_map = {}
         self.results = {}
         self.pause = set([])
+        self.paused = False
 
     @on_root_proc
     def add_interface(self, callable, block=True):
@@ -274,11 +275,18 @@ class CommandManager(object):
     def wait_for_cmd(self):
         ''' wait for command from any interface '''
         with self.qlock:
-            while self.pause:
+            while True:
+                # qlock is held from here until `qlock.wait`, so a command is
+                # either run now or its `notify_all` finds us waiting.
+                self.run_queued_commands()
                 with self.plock:
+                    # decide under plock, so that a `pause_on_next` either
+                    # precedes this check or waits for the next one.
+                    self.paused = len(self.pause) > 0
+                    if not self.paused:
+                        break
                     self.plock.notify_all()
                 self.qlock.wait()
-                self.run_queued_commands()
 
     def sync_commands(self):
         ''' send the pending commands to all the procs in parallel run '''
@@ -310,12 +318,12 @@ class CommandManager(object):
             return False
         with self.plock:
             self.pause.add(threading.current_thread().ident)
-            self.plock.notify()
         return True
 
     def wait(self):
         with self.plock:
-            self.plock.wait()
+            while not self.paused:
+                self.plock.wait()
 
     def cont(self):
         ''' continue after a pause command '''
@@ -324,9 +332,10 @@ class CommandManager(object):
             return
         with self.plock:
             self.pause.remove(threading.current_thread().ident)
-            self.plock.notify()
-            with self.qlock:
-                self.qlock.notify_all()
+        # take qlock only after releasing plock: `wait_for_cmd` holds qlock
+        # while it takes plock.
+        with self.qlock:
+            self.qlock.notify_all()
 
     def get_result(self, lock_id):
         ''' get the result of a previously queued command '''
@@ -440,6 +449,8 @@ class CommandManager(object):
                     self.queue_lock_map[lock_id] = lock
                     self.queue_dict[lock_id] = (meth, args, kwargs)
                     self.queue.append(lock_id)
+                    # a paused solver runs queued commands when woken
+                    self.qlock.notify_all()
                 logger.debug('controller: dispatch(%d): %s %s %s'%(
                             lock_id, meth, args, kwargs))
                 return str(lock_id)
